@@ -4,6 +4,7 @@ from __future__ import annotations
 import json
 import os
 import subprocess
+import tempfile
 import sys
 import time
 import traceback
@@ -268,8 +269,9 @@ class Check:
         out = ""
         if o.get("replay"):
             try:
-                p = subprocess.run([NATIVE_PY, "-c", o["replay"]], capture_output=True, text=True, timeout=600,
-                                   cwd=loader.REPO, env=dict(os.environ, PYTHONPATH=""))
+                with tempfile.TemporaryDirectory(prefix="pyvc_replay_") as scratch:   # never write into /repo
+                    p = subprocess.run([NATIVE_PY, "-c", o["replay"]], capture_output=True, text=True, timeout=600,
+                                       cwd=scratch, env=dict(os.environ, PYTHONPATH=os.path.join(loader.REPO, "src")))
                 out = (p.stdout + p.stderr)[-4000:]
                 confirmed = any(ln.startswith("CONFIRMED") for ln in p.stdout.splitlines())
             except Exception as e:  # replay machinery failure is not a confirmation
@@ -317,6 +319,7 @@ def run_replay(path):
         print("no executable witness recorded (no-failing-input-found); verifier output:")
         print(rec["verifier_output"])
         return 1
-    p = subprocess.run([NATIVE_PY, "-c", rec["replay_script"]], text=True, cwd=loader.REPO,
-                       env=dict(os.environ, PYTHONPATH=""))
+    with tempfile.TemporaryDirectory(prefix="pyvc_replay_") as scratch:
+        p = subprocess.run([NATIVE_PY, "-c", rec["replay_script"]], text=True, cwd=scratch,
+                           env=dict(os.environ, PYTHONPATH=os.path.join(loader.REPO, "src")))
     return p.returncode
